@@ -4,7 +4,8 @@
    asking for a rerun —, any pre-handlers, any interrupt sets) and Proofs/Interrupt.v (the
    instance the correspondence check evaluates: Pregel and DAG channels of Model/Graph.v). *)
 From Eino Require Import Base.Util Model.Graph Model.RunLoop Model.Interrupt Model.IntrObs
-     Proofs.RunLoop Proofs.Interrupt Proofs.InterruptWitness.
+     Proofs.RunLoop Proofs.RunLoopRerun Proofs.Interrupt Proofs.InterruptRerun Proofs.InterruptWitness.
+From Coq Require Import Permutation.
 Open Scope N_scope.
 
 Section Generic.
@@ -129,10 +130,10 @@ Proof. exact w_chain_interrupted. Qed.
    every iteration — node 5 runs again and again on the input saved at the first interrupt, node 4
    never runs — until the step limit. *)
 Theorem sub_checkpoint_used_once_v0_refuted :
-  (exists l, w_loop_call1 false = Some (cInterrupt, l) /\ map (fun ev : evt => fst (fst ev)) l = [5; 3; 4]) /\
+  (* the nodes executed by the second call, in order *)
+  w_loop_call1 false = Some (cInterrupt, [5; 3; 4]) /\
   (exists l, w_loop_call1 true = Some (cStepLimit, l) /\
-     (List.length (filter (fun ev : evt => N.eqb (fst (fst ev)) 5) l) > 1)%nat /\
-     filter (fun ev : evt => N.eqb (fst (fst ev)) 4) l = []).
+     (List.length (filter (N.eqb 5) l) > 1)%nat /\ filter (N.eqb 4) l = []).
 Proof. exact (conj w_loop_repaired resume_v0_reuses_stale_checkpoint). Qed.
 
 (* F-C05c (fixed bd5fb24): eager mode, [estep_v0] is the loop before the repair. Node 5 completes first,
@@ -143,6 +144,104 @@ Theorem resume_equiv_eager_v0_refuted :
   w_eager_run false = Some cDone /\ w_eager_run true = Some cFail.
 Proof. exact (conj w_eager_repaired estep_v0_loses_pending_tasks). Qed.
 
+(* ---------------------------------------------------------------------------------------------
+   Nodes that ask for InterruptAndRerun. Generic statement: a flat graph in batch mode whose nodes
+   either complete with [body k input] or — if [rerunnable] — abort the attempt; the uninterrupted run
+   is the loop in which every body completes at once, without interrupt points. Asked of the
+   surroundings: the channel layer folds completed tasks compositionally and, for the distinct nodes
+   of one step, independently of their order; the pre-handler of a rerunnable node rebuilds, from the
+   state it left, the input it handed to the aborted attempt and leaves the state alone (the property's
+   own proviso). Then, for ANY interrupt-before/after sets, ANY pattern of aborted attempts and ANY
+   number of calls: whenever the run driven through the store completes, it completes with the output of
+   the uninterrupted run, and the completed (non-aborted) executions of all its calls are — as a
+   multiset of (node, input) — exactly the executions of the uninterrupted run: nothing completed before
+   an interrupt is executed again, nothing is lost, the re-run starts from the rebuilt input. *)
+Section GenericRerun.
+  Context {V CS GS ENV SCP SINFO : Type}.
+  Variable zero : V.
+  Variable fold : CS -> list (N * V) -> res CS.
+  Variable getr : CS -> res (CS * list (N * V)).
+  Variable pre : N -> V -> GS -> V * GS.
+  Variable body : N -> V -> V.
+  Variable rerunnable : N -> Prop.
+  Variable execR : N -> option SCP -> V -> ENV -> @texec V SCP SINFO * ENV.
+  Variable before after : list N.
+  Hypothesis H_execR : forall k v e,
+    (exists e', execR k None v e = (TDone (body k v), e')) \/
+    (rerunnable k /\ exists e', execR k None v e = (TRerun, e')).
+  Variable Inv : CS -> Prop.
+  Hypothesis H_fold_inv : forall cs l cs', Inv cs -> fold cs l = Ok cs' -> Inv cs'.
+  Hypothesis H_getr_inv : forall cs cs' r, Inv cs -> getr cs = Ok (cs', r) -> Inv cs'.
+  Hypothesis H_fold_nil : forall cs, Inv cs -> fold cs [] = Ok cs.
+  Hypothesis H_getr_idem : forall cs cs' r, Inv cs -> getr cs = Ok (cs', r) -> getr cs' = Ok (cs', []).
+  Hypothesis H_getr_nodup : forall cs cs' r, Inv cs -> getr cs = Ok (cs', r) -> NoDup (map fst r).
+  Hypothesis H_fold_app : forall cs A B cs1, Inv cs -> fold cs A = Ok cs1 -> fold cs (A ++ B) = fold cs1 B.
+  Hypothesis H_fold_prefix : forall cs A B r, Inv cs -> fold cs (A ++ B) = Ok r -> exists cs1, fold cs A = Ok cs1.
+  Hypothesis H_fold_perm : forall cs A B r, Inv cs -> NoDup (map fst A) -> Permutation A B ->
+    fold cs A = Ok r -> fold cs B = Ok r.
+  Variable GOK : GS -> Prop.
+  Hypothesis H_pre_ok : forall k v gs, GOK gs -> GOK (snd (pre k v gs)).
+  Hypothesis H_rebuild : forall (ts : list (@task V SCP)) gs,
+    GOK gs -> NoDup (map t_key ts) -> Forall fresh_task ts ->
+    forall t', In t' (fst (run_pres pre ts gs)) -> rerunnable (t_key t') ->
+      pre (t_key t') zero (snd (run_pres pre ts gs)) = (t_in t', snd (run_pres pre ts gs)).
+
+  Theorem rerun_equiv : forall {B : Type} (ser : @checkpoint V CS GS SCP -> B) deser,
+    (forall c, deser (ser c) = Some c) ->
+    forall fuelR cs0 gs0 x fuelU vU lU n env cos env' cos' co,
+      Inv cs0 -> GOK gs0 ->
+      start zero fold getr pre (execU (SCP := SCP) (SINFO := SINFO) body) [] [] fuelU cs0 gs0 x tt = (ODone vU, lU, tt) ->
+      (fuelU <= fuelR)%nat ->
+      drive ser deser (start zero fold getr pre execR before after fuelR cs0 gs0 x)
+            (resume zero fold getr pre execR before after fuelR)
+            (fun _ e => e) true n 0 (fun _ g => g) None env = (cos, env') ->
+      cos = cos' ++ [co] ->
+      is_interrupt (co_out co) \/
+      (co_out co = ODone vU /\ Permutation (good (all_logs cos)) lU).
+  Proof.
+    intros B ser deser Hser.
+    exact (rerun_equiv_l zero fold getr pre body rerunnable execR before after H_execR Inv
+             H_fold_inv H_getr_inv H_fold_nil H_getr_idem H_getr_nodup H_fold_app H_fold_prefix H_fold_perm
+             GOK H_pre_ok H_rebuild ser deser Hser).
+  Qed.
+End GenericRerun.
+
+(* The same for the model the correspondence evaluates: a flat Graph in any-predecessor mode (Pregel
+   channels of Model/Graph.v — all channel hypotheses discharged in Proofs/InterruptChanPregel.v),
+   lambda nodes with arbitrary rerun tables ([lam_ex g] = [lambda_exec], which is what [node_exec]
+   runs on a lambda node), the harness's state pre-handler [pre_fn] (rebuild hypothesis discharged:
+   [rerun_ok g] = the graph has a state and every node with a rerun table has the stamping/rebuilding
+   pre-handler), any interrupt-before/after sets. *)
+Theorem rerun_equiv_flat_pregel :
+  forall (g : gspec), rerun_ok g ->
+  forall gi x e n fuelU cs0 vU lU cos e' cos' co,
+    g_mode (gs_graph g) = Pregel -> g_eager (gs_graph g) = false ->
+    init_chans value (gs_graph g) = Ok cs0 ->
+    start VNil (ifold (gs_graph g)) (igetr (gs_graph g)) (pre_fn g)
+          (execU (SCP := ncp) (SINFO := ninfo) lam_body) [] [] fuelU cs0 (gs0 g) x tt = (ODone vU, lU, tt) ->
+    (fuelU <= seg_fuel (gs_graph g))%nat ->
+    drive (fun c : cpt => c) (fun c => Some c) (seg_fresh (lam_ex g) gi g x) (seg_resumed (lam_ex g) gi g)
+          (fun _ e => e) true n 0 (fun _ s => s) None e = (cos, e') ->
+    cos = cos' ++ [co] ->
+    is_interrupt (co_out co) \/
+    (co_out co = ODone vU /\ Permutation (good (all_logs cos)) lU).
+Proof. exact rerun_equiv_model_l. Qed.
+
+(* non-vacuity: node 2 aborts its first two attempts, node 3 its first (interrupt-after 3 configured):
+   the hypotheses hold, the run takes three interrupted calls and completes on the fourth *)
+Example rerun_equiv_flat_pregel_hypotheses_hold :
+  rerun_ok w_rerun /\
+  (exists cs0 v l, init_chans value w_rerun_gr = Ok cs0 /\
+     start VNil (ifold w_rerun_gr) (igetr w_rerun_gr) (pre_fn w_rerun)
+           (execU (SCP := ncp) (SINFO := ninfo) lam_body) [] [] 2 cs0 (gs0 w_rerun) x1 tt = (ODone v, l, tt) /\
+     List.length l = 2%nat) /\
+  (exists cos e,
+     drive (fun c : cpt => c) (fun c => Some c) (seg_fresh (lam_ex w_rerun) 0 w_rerun x1) (seg_resumed (lam_ex w_rerun) 0 w_rerun)
+           (fun _ e => e) true 6 0 (fun _ s => s) None (env0 []) = (cos, e) /\
+     map (fun co => class_of w_rerun_gr (co_out co)) cos = [cInterrupt; cInterrupt; cInterrupt; cDone] /\
+     List.length (filter (fun ev => ev_abort ev) (all_logs cos)) = 3%nat).
+Proof. exact (conj w_rerun_ok (conj w_rerun_uninterrupted w_rerun_completes)). Qed.
+
 Print Assumptions loop_split_resume.
 Print Assumptions loop_split_interrupt.
 Print Assumptions resume_equiv.
@@ -152,3 +251,6 @@ Print Assumptions resume_equiv_flat_hypotheses_hold.
 Print Assumptions resume_equiv_flat_interrupts_happen.
 Print Assumptions sub_checkpoint_used_once_v0_refuted.
 Print Assumptions resume_equiv_eager_v0_refuted.
+Print Assumptions rerun_equiv.
+Print Assumptions rerun_equiv_flat_pregel.
+Print Assumptions rerun_equiv_flat_pregel_hypotheses_hold.
